@@ -52,3 +52,26 @@ pub(crate) fn stub_libm1(_x: f64) -> f64 {
 pub(crate) fn stub_libm2(_x: f64, _y: f64) -> f64 {
     kani::any()
 }
+
+/// Value channel for `stub_fmt_write_u_escape` (set by the harness before the call).
+pub(crate) static ESC_VALUE: core::sync::atomic::AtomicU32 = core::sync::atomic::AtomicU32::new(0);
+
+fn hex_digit(n: u32) -> u8 {
+    let n = (n & 0xF) as u8;
+    if n < 10 { b'0' + n } else { b'a' + (n - 10) }
+}
+
+/// Stub for `core::fmt::write` in the JSON-escaper harnesses: the only formatting the escaper does is
+/// `write!(result, "\\u{:04x}", chr as u32)`. `core::fmt`'s integer formatting machinery (trusted std, and
+/// not decidable by CBMC within the caps on a symbolic operand) is replaced by a direct rendering of the
+/// value the harness recorded in `ESC_VALUE`: backslash, `u`, four lowercase hex digits.
+pub(crate) fn stub_fmt_write_u_escape(output: &mut dyn core::fmt::Write, _args: core::fmt::Arguments<'_>) -> core::fmt::Result {
+    let v = ESC_VALUE.load(core::sync::atomic::Ordering::Relaxed);
+    let bytes = [b'\\', b'u', hex_digit(v >> 12), hex_digit(v >> 8), hex_digit(v >> 4), hex_digit(v)];
+    output.write_str(core::str::from_utf8(&bytes).unwrap())
+}
+
+/// Stub for `core::fmt::write` where the formatted text is not the subject: nothing is appended.
+pub(crate) fn stub_fmt_write_nothing(_output: &mut dyn core::fmt::Write, _args: core::fmt::Arguments<'_>) -> core::fmt::Result {
+    Ok(())
+}
